@@ -57,9 +57,7 @@ def run_check(ses, name, tier, timeout, only=None):
         opts = cfg['opts'](sh)
         try:
             v = Verifier(ses.prog, ses.specs, cfg['func'], opts, resolver=ses.resolver)
-            v.spec = ses.resolver(cfg['func'])
-            sp = v.spec
-            v.track_init = any('init' in x for x in sp.opts.get('track', []))
+            v.configure(ses.resolver(cfg['func']))
             ctx = v.run()
         except (Unsupported, SpecError) as ex:
             errors.append({'shape': sh, 'error': '%s: %s' % (type(ex).__name__, ex)})
